@@ -18,6 +18,12 @@ KINDS = ["buffer", "delay", "rate_limit", "map_async", "timed_window", "partitio
 EXTRA = ["StreamzVerif.Props.C13"]
 
 CORPUS = [
+    # native-coroutine consumers directly below map_async, elements without metadata
+    {"mode": "async", "flavour": "coro", "nodes": [{"kind": "source", "ups": []}, {"kind": "map_async", "f": ["inc"], "parallelism": 2, "ups": [0]},
+                                                    {"kind": "sink", "mode": "async", "ups": [1]}, {"kind": "sink", "mode": "async", "ups": [1]}],
+     "ops": [{"op": "settle"}, {"op": "emit", "node": 0, "val": 1, "md": []}, {"op": "emit", "node": 0, "val": 2, "md": []}, {"op": "jobdone", "job": 0},
+             {"op": "sinkdone", "tok": 0}, {"op": "sinkdone", "tok": 1}, {"op": "jobdone", "job": 1}, {"op": "sinkdone", "tok": 2}, {"op": "sinkdone", "tok": 3},
+             {"op": "emit", "node": 0, "val": 3, "md": []}, {"op": "jobdone", "job": 2}, {"op": "sinkdone", "tok": 4}, {"op": "sinkdone", "tok": 5}]},
     # repaired 63350ae: start() reaching a running map_async node (here through its sink) replaced the live worker; the old one still
     # took the next task and the two emitted concurrently - [3, 2] when the second job finishes first
     {"mode": "async", "flavour": "future", "nodes": [{"kind": "source", "ups": []}, {"kind": "map_async", "f": ["inc"], "parallelism": 2, "ups": [0]},
@@ -131,7 +137,7 @@ def lean_extra(prop="C02"):
 
 def run(ctx):
     ctx.audit(extra_modules=lean_extra("C02"))
-    n = 150 if not ctx.thorough() else 5000
+    n = 150 if not ctx.thorough() else 3000
     A.sweep(ctx, n, KINDS, ["lossless"], SIGS, corpus=CORPUS, p_zip=0.25)
     # completions racing emissions: a completion and one or two emissions in ONE loop callback (no settling in between)
     A.sweep(ctx, n // 3, KINDS, ["lossless"], SIGS, p_zip=0.1, opts={"p_multi": 0.3})
